@@ -157,6 +157,11 @@ for _pid, _pre in (("C03", "c03_typecompat_sound"), ("C04", "c04_typecompat_comp
               "variable type: rows %s of the 11 well-formed wrapper nestings of depth <= 3; location type: all 11; chosen by symbolic selectors, names symbolic over {A, B}; instantiation S = interned-name type" % _rows,
               timeout=1500, mem_gb=10)
             for _r, _rows in ((0, "0-3"), (1, "4-7"), (2, "8-10"))
+        ] + [
+            H(_pre + "_d4_r%d" % _r, "nitrogql-checker", CK + "common.rs", "checker/typecompat_h.rs", "verif_typecompat", ["common::check_type_compatibility"],
+              "variable type: rows %s of the 19 well-formed wrapper nestings of depth <= 4; location type: all 19; symbolic selectors, names symbolic over {A, B}" % _rows,
+              tiers=("thorough",), timeout=3600, mem_gb=12)
+            for _r, _rows in ((0, "0-3"), (1, "4-7"), (2, "8-11"), (3, "12-15"), (4, "16-18"))
         ],
     }
 
@@ -178,6 +183,12 @@ PROPS["C16"] = {
         H("print_string_single_line_n2_outside_known", "nitrogql-printer", PR + "graphql_printer/utils.rs", "printer/print_string_h.rs", "verif_print_string",
           ["graphql_printer::utils::print_string"], "strings of 0..2 chars from {a, CR, U+0001, e-acute, U+1F600, /} (no LF: single-line path; no double quote, no backslash: outside the recorded finding)",
           timeout=1800, mem_gb=20),
+        H("print_string_block_n3_outside_known", "nitrogql-printer", PR + "graphql_printer/utils.rs", "printer/print_string_h.rs", "verif_print_string",
+          ["graphql_printer::utils::print_string"], "multi-line strings of 1..3 chars from {LF, \", \\, a, space} containing LF and NOT ending in \" or \\; lexical form only",
+          timeout=2400, mem_gb=20),
+        H("print_string_block_n3_known_trailing_quote_backslash", "nitrogql-printer", PR + "graphql_printer/utils.rs", "printer/print_string_h.rs", "verif_print_string",
+          ["graphql_printer::utils::print_string"], "multi-line strings of 2..3 chars from the same alphabet ENDING in \" or \\ (the recorded finding)",
+          timeout=2400, mem_gb=20, expect="fail", has_mutant=False),
         H("print_string_single_line_n2_known_quote_backslash", "nitrogql-printer", PR + "graphql_printer/utils.rs", "printer/print_string_h.rs", "verif_print_string",
           ["graphql_printer::utils::print_string"], "strings of 1..2 chars from {\", \\, a, CR, U+0001, e-acute, U+1F600, /} containing at least one double quote or backslash (the recorded finding)",
           timeout=1800, mem_gb=20, expect="fail", has_mutant=False),
